@@ -26,8 +26,11 @@ enum Kind {
     NestedValid,
     /// a bare enum variant name (valid for the enum target, a string for the untyped one)
     EnumName,
+    /// a document whose value is the empty string (empty block scalar, empty quoted scalar):
+    /// a value, not a null document - it is not skipped
+    EmptyString,
 }
-const KINDS: [Kind; 15] = [
+const KINDS: [Kind; 16] = [
     Kind::Mapping,
     Kind::Sequence,
     Kind::Scalar,
@@ -43,6 +46,7 @@ const KINDS: [Kind; 15] = [
     Kind::TypeThenSyntaxError,
     Kind::NestedValid,
     Kind::EnumName,
+    Kind::EmptyString,
 ];
 
 #[derive(Clone, Debug, Serialize, Deserialize, PartialEq, Eq, Hash)]
@@ -94,6 +98,9 @@ impl Part {
             Kind::TypeThenSyntaxError => ["a: oops\nb: [1, 2\n", "a: [x]\nb: 'open\n"][v % 2],
             Kind::NestedValid => ["a: 1\nb: 2\nc: 3\n", "m: 1\n"][v % 2],
             Kind::EnumName => ["Start\n", "Stop\n"][v % 2],
+            // (a top-level block scalar is closed by `...`: without it the parser takes the next
+            // `---` line for content)
+            Kind::EmptyString => ["''\n", "\"\"\n", "|\n...\n"][v % 3],
         }
     }
     fn has_syntax_error(&self) -> bool {
@@ -106,6 +113,9 @@ impl Part {
     fn text(&self) -> String {
         let mut s = String::from("---\n");
         s.push_str(self.body());
+        if self.kind == Kind::EmptyString && self.variant % 3 == 2 {
+            return s;
+        }
         if self.end_marker && !self.has_syntax_error() {
             s.push_str("...");
             if self.trailing_comment {
@@ -312,7 +322,7 @@ impl Property for C11 {
     const ID: &'static str = "C11";
     type Case = Case;
     fn rule() -> String {
-        "cases = sequences over 15 document kinds (mapping, sequence, scalar, empty, explicit null, comment-only, defines an anchor, aliases an anchor of an earlier document, type error early, type error late inside nesting, syntax error, unterminated flow, type error followed by a syntax error, another valid mapping, a bare enum variant name), 2-3 concrete texts per kind, with/without `...` end markers and trailing comments, LF/CRLF; all sequences of length <= 3 (thorough: <= 4) and random ones up to length 8; targets: untyped tree, BTreeMap<String,i64> and a unit-variant enum (for which several kinds are type errors, some raised on a peeked event). Oracle: a model built from parsing each part alone with from_str: batch = Err if a part fails else the list of the non-empty parts; iterator = Ok / Err per part, continuing after a type-level error and ending after a part that contains a syntax error, never more than len+2 items, equal to batch when nothing fails; single-document entry points reject a stream whose later part has content. Non-trivial: >= 2 parts one of which is an error or anchor-related kind.".into()
+        "cases = sequences over 16 document kinds (mapping, sequence, scalar, empty, explicit null, comment-only, defines an anchor, aliases an anchor of an earlier document, type error early, type error late inside nesting, syntax error, unterminated flow, type error followed by a syntax error, another valid mapping, a bare enum variant name), 2-3 concrete texts per kind, with/without `...` end markers and trailing comments, LF/CRLF; all sequences of length <= 3 (thorough: <= 4) and random ones up to length 8; targets: untyped tree, BTreeMap<String,i64> and a unit-variant enum (for which several kinds are type errors, some raised on a peeked event). Oracle: a model built from parsing each part alone with from_str: batch = Err if a part fails else the list of the non-empty parts; iterator = Ok / Err per part, continuing after a type-level error and ending after a part that contains a syntax error, never more than len+2 items, equal to batch when nothing fails; single-document entry points reject a stream whose later part has content. Non-trivial: >= 2 parts one of which is an error or anchor-related kind.".into()
     }
     fn assumptions() -> Vec<String> {
         vec![
@@ -399,7 +409,7 @@ impl Property for C11 {
                 }
             }
         }
-        ctx.subspace(&format!("all sequences of length <= {maxlen} over 15 document kinds x 3 targets"), total, true);
+        ctx.subspace(&format!("all sequences of length <= {maxlen} over 16 document kinds x 3 targets"), total, true);
 
         let part = (prop::sample::select(KINDS.to_vec()), 0u8..3, any::<bool>(), any::<bool>()).prop_map(|(kind, variant, e, t)| Part { kind, variant, end_marker: e, trailing_comment: t });
         // bias towards valid kinds so that long streams survive
